@@ -158,6 +158,7 @@ def main(ctx):
     ctx.require("offset_distributions_checked", 20)
     ctx.require("confirmation_limits_checked", 100)
     ctx.require("empty_target_checks", 100)
+    ctx.require("composite_offset_distributions_checked", 5)
     ctx.require("tables_checked", 500)
     ctx.require("tables_with_zero_rates", 50)
     ctx.require("tables_large", 50)
@@ -170,7 +171,7 @@ def replay(acc, w):
 
 
 # -- cell-veto handler: rate, target cell, stored bound ------------------------------------------------------------------
-def check_handler(acc, rng, cps, layers, lengths, power, prefactor, use_charge, npos=6):
+def check_handler(acc, rng, cps, layers, lengths, power, prefactor, use_charge, npos=6, composite=False):
     """Real LeafUnitCellVetoEventHandler on real CuboidPeriodicCells with a real InnerPointEstimator; all draws scripted."""
     import contextlib
     import io
@@ -185,7 +186,11 @@ def check_handler(acc, rng, cps, layers, lengths, power, prefactor, use_charge, 
     from jellyfysh.event_handler.leaf_unit_cell_veto_event_handler import LeafUnitCellVetoEventHandler
     from jellyfysh.potential.inverse_power_potential import InversePowerPotential
     beta = rng.choice([1.0, 2.0, 0.5])
-    init_setting(3, lengths, beta=beta)
+    if composite:
+        use_charge = True
+        init_setting(3, lengths, beta=beta, roots=3, per_root=2, levels=2)
+    else:
+        init_setting(3, lengths, beta=beta)
     cells = CuboidPeriodicCells(cells_per_side=list(cps), neighbor_layers=layers)
     pot = InversePowerPotential(power=float(power), prefactor=prefactor)
     est_pref = rng.choice([1.0, 1.5])
@@ -195,6 +200,15 @@ def check_handler(acc, rng, cps, layers, lengths, power, prefactor, use_charge, 
     wit = {"kind": "handler", "cps": list(cps), "layers": layers, "L": list(lengths), "power": power,
            "prefactor": prefactor, "charge": use_charge}
     h = LeafUnitCellVetoEventHandler(estimator=est, charge="q" if use_charge else None)
+    if composite:
+        from jellyfysh.estimator.dipole_inner_point_estimator import DipoleInnerPointEstimator
+        from jellyfysh.event_handler.composite_object_cell_veto_event_handler import CompositeObjectCellVetoEventHandler
+        from jellyfysh.lifting.inside_first_lifting import InsideFirstLifting
+        est = DipoleInnerPointEstimator(potential=pot, dipole_separation=0.05 * min(lengths), prefactor=est_pref,
+                                        points_per_side=2, dipole_charge=1.0)
+        h = CompositeObjectCellVetoEventHandler(estimator=est, lifting=InsideFirstLifting(), charge="q")
+        wit["composite"] = True
+        acc.count("handler_grids_composite")
     with contextlib.redirect_stdout(io.StringIO()):
         h.initialize(cells, 1)
     by_id = {tuple(c.identifier): c for c in cells.yield_cells()}
@@ -222,8 +236,10 @@ def check_handler(acc, rng, cps, layers, lengths, power, prefactor, use_charge, 
         acell = by_id[tuple(rng.randrange(n) for n in cps)]
         pos = [rng.uniform(acell.cell_min[k], acell.cell_max[k]) for k in range(3)]
         stamp = (float(rng.choice([0, 3, 10 ** 6])), rng.random())
-        cf = q_active if use_charge else 1.0
+        cf = est.charge_correction_factor(q_active) if use_charge else 1.0
         idx = 0 if cf > 0 else 1
+        # composite objects: the cell is that of the ROOT unit; the active point mass may sit across a cell face
+        leaf_off = [rng.choice([-1, 1]) * 0.025 * min(lengths) if k2 == (d + 1) % 3 else 0.0 for k2 in range(3)]
         total = sum(max(bounds[(off, d)][idx], 0.0) for off in offsets)
         if total <= 0:
             continue
@@ -231,6 +247,15 @@ def check_handler(acc, rng, cps, layers, lengths, power, prefactor, use_charge, 
         def fresh_in_state():
             vel = [0.0, 0.0, 0.0]
             vel[d] = speed
+            if composite:
+                root = Node(Unit(identifier=(0,), position=list(pos), velocity=[0.5 * c for c in vel],
+                                 time_stamp=Time(*stamp)), weight=1)
+                lp = [(pos[k2] + leaf_off[k2]) % lengths[k2] for k2 in range(3)]
+                op = [(pos[k2] - leaf_off[k2]) % lengths[k2] for k2 in range(3)]
+                root.add_child(Node(Unit(identifier=(0, 0), position=lp, charge={"q": q_active}, velocity=vel,
+                                         time_stamp=Time(*stamp)), weight=0.5))
+                root.add_child(Node(Unit(identifier=(0, 1), position=op, charge={"q": -q_active}), weight=0.5))
+                return [root]
             u = Unit(identifier=(0,), position=list(pos), charge={"q": q_active} if use_charge else None,
                      velocity=vel, time_stamp=Time(*stamp))
             return [Node(u, weight=1)]
@@ -281,6 +306,9 @@ def check_handler(acc, rng, cps, layers, lengths, power, prefactor, use_charge, 
                           f"direction {d}, charge factor {cf}: P(offset {off}) = {prob.get(off, 0.0)!r}, bound/total = "
                           f"{max(bounds[(off, d)][idx], 0.0) / total!r}", dict(wit, d=d, cf=cf))
             return
+        if composite:
+            acc.count("composite_offset_distributions_checked")
+            continue
         # confirmation draw: upper limit = bound stored for the target's offset and direction (times charge factor)
         for _ in range(12):
             with Script() as s:
@@ -336,6 +364,7 @@ def shard_handler(acc, prop="C18", seed=0, shard=0, grids=1):
         if not any(c > 2 * layers + 1 for c in cps):
             continue
         acc.case(("handler", tuple(cps), tuple(lengths)), nontrivial=True)
-        check_handler(acc, rng, cps, layers, lengths, rng.choice([1, 2, 6]), rng.choice([1.0, 0.3]), rng.random() < 0.6)
+        check_handler(acc, rng, cps, layers, lengths, rng.choice([1, 2, 6]), rng.choice([1.0, 0.3]), rng.random() < 0.6,
+                      composite=(shard + g) % 3 == 2)
         if shard == 0 and g == 0:
             acc.sample({"cells_per_side": cps, "system_lengths": lengths, "neighbor_layers": layers})
